@@ -602,7 +602,9 @@ pub fn run_codec(cfg: &Value) -> Value {
     let mut elems = Vec::new();
     let mut raw: Vec<[u8; 32]> = Vec::new();
     for e in 0..ne {
-        let is_point = !(e < nd1 || e == nd1 + 3 || e == nd1 + 4);
+        // all_scalars: every element is (also) a canonical scalar, so that the buffer parses under ANY reading of the tag byte
+        // (points are opaque to the codec); used when a tag outside 1..=6 is reported as accepted
+        let is_point = !(e < nd1 || e == nd1 + 3 || e == nd1 + 4) && !cfg["all_scalars"].as_bool().unwrap_or(false);
         let (b, id) = env::new_elem(is_point, &format!("ce_{}", e));
         elems.push(id);
         raw.push(b);
@@ -658,6 +660,13 @@ pub fn run_codec(cfg: &Value) -> Value {
     let mut framed = (bytes.len() as u64).to_le_bytes().to_vec();
     framed.extend_from_slice(&bytes);
     let sr = catch_unwind(AssertUnwindSafe(|| bincode::deserialize::<RistrettoRangeProof>(&framed)));
+    // the same serde form read from a stream (an owned, not a borrowed, byte string reaches the visitor)
+    let srr = catch_unwind(AssertUnwindSafe(|| bincode::deserialize_from::<_, RistrettoRangeProof>(&framed[..])));
+    out["serde_reader_decode"] = match &srr {
+        Ok(Ok(_)) => json!("ok"),
+        Ok(Err(_)) => json!("err"),
+        Err(_) => json!("panic"),
+    };
     match r {
         Ok(Ok(p)) => {
             out["decode"] = json!("ok");
